@@ -2,6 +2,7 @@ import Driver.StackDrv
 import Driver.ExecDrv
 import Driver.BufDrv
 import Driver.RunDrv
+import Driver.LoopDrv
 open Pushr
 
 def handleLine (line : String) : String :=
@@ -9,6 +10,7 @@ def handleLine (line : String) : String :=
   | some [.list (.atom kind :: rest)] =>
     match kind with
     | "stackop" => StackDrv.handle rest
+    | "loop" => LoopDrv.handle rest
     | "run" => RunDrv.handle rest
     | "bufseq" => BufDrv.handle rest
     | "exec" => ExecDrv.handleExec rest
